@@ -159,12 +159,25 @@ def run(prog, rep, tier):
                             kinds.append(cc.callee.get("self") or cc.f)
                 if any("Receiver<s4::ChanDatum>" in k for k in kinds) and any(PENDING_ITEM in k for k in kinds):
                     W1 = (bb, rv[1], t)
+                    W1_len_blocks = [x[1] for o in (rv[2], rv[3]) for x in b.origins(o) if x[0] == "call"]
     if W1 is None:
         raise CheckerError("processing_loop: wait condition comparing channel count with pending count not found")
     w1bb, op, t1 = W1
     rep.examined(R12, PL + "|wait-cond", sample={"block": w1bb, "operator": op})
     if op != "Ne":
         rep.violation(R12, PL + "|wait-cond", "processing_loop: the wait condition compares live-channel count and pending count with %s; it must be != (print only when every live source has a pending message)" % op)
+    # both counts are taken afresh on every round of the coordinator loop: the channel registry shrinks
+    # whenever a source is done, a count read once before the loop never equals the pending count again
+    # after the first source has finished (nothing more is printed, the loop ends on recv None)
+    loops_w1 = [h_ for (s_, h_) in b.back_edges() if w1bb in b.loop_blocks(h_) or w1bb == h_]
+    if not loops_w1:
+        raise CheckerError("processing_loop: the wait condition is not inside a loop")
+    for lb_ in W1_len_blocks:
+        inside_ = all(lb_ in b.loop_blocks(h_) or lb_ == h_ for h_ in loops_w1)
+        rep.examined(R12, PL + "|wait-cond|count@%s" % ("loop" if inside_ else "before-loop"), sample={"len_call_block": lb_, "inside_the_coordinator_loop": inside_})
+        if not inside_:
+            rep.violation(R12, PL + "|wait-cond|stale-count", "processing_loop: one of the two counts compared by the wait condition (line %s) is taken outside the coordinator loop; the registry of live channels shrinks as sources finish, "
+                          "so after the first source has ended the comparison never holds again: the remaining sources' pending messages are never printed (s4 a.log b.log loses the tail of the longer file)" % b.blocks[lb_].get("l"))
     z1 = dict((int(v), tb) for v, tb in t1[2]).get(0)
     if z1 is None:
         raise CheckerError("processing_loop: wait condition switch has no zero arm")
